@@ -72,3 +72,69 @@ Proof.
   split; [exact inst_key_rt|]. split; [exact inst_hash_rt|]. split; [exact dec_chars|].
   split; [exact inst_hash_chars|]. repeat split; vm_compute; reflexivity.
 Qed.
+
+(* ==================================================================================================================
+   Policies (Ms/PolTextModel.v; proofs Proofs/PolTextDepth.v): the depth premise of C10_pol_sem_text_fixpoint /
+   C10_pol_conc_text_fixpoint (Properties/C10PolText.v) derived from the accepted input, as above for miniscripts.
+   Semantic `and(..)` / `or(..)` respell `thresh` at the same level; the concrete `N@` odds are written into the node NAME
+   (`with_prob`), not into an extra level; `UNSAT` / `TRIVIAL` are leaves.  Both statements are TRUE for the model. *)
+From Verif Require Import PolTextModel PolTextProofs PolTextCompose PolTextDepth.
+
+Theorem C10_pol_sem_print_not_deeper :
+  forall (print_key : N -> tbytes) (parse_key : tbytes -> option N)
+         (print_hash : phk -> N -> tbytes) (parse_hash : phk -> tbytes -> option N) t p,
+  sem_from_tree parse_key parse_hash t = Ok p -> depth (sem_to_tree print_key print_hash p) <= depth t.
+Proof. exact sem_from_tree_depth. Qed.
+Print Assumptions C10_pol_sem_print_not_deeper.
+
+Theorem C10_pol_conc_print_not_deeper :
+  forall (print_key : N -> tbytes) (parse_key : tbytes -> option N)
+         (print_hash : phk -> N -> tbytes) (parse_hash : phk -> tbytes -> option N) t p,
+  conc_from_tree parse_key parse_hash t = Ok p -> depth (conc_to_tree print_key print_hash p) <= depth t.
+Proof. exact conc_from_tree_depth. Qed.
+Print Assumptions C10_pol_conc_print_not_deeper.
+
+Theorem C10_pol_sem_text_fixpoint_unconditional :
+  forall (print_key : N -> tbytes) (parse_key : tbytes -> option N)
+         (print_hash : phk -> N -> tbytes) (parse_hash : phk -> tbytes -> option N),
+  (forall k, parse_key (print_key k) = Some k) ->
+  (forall h v, parse_hash h (print_hash h v) = Some v) ->
+  (forall k, forallb name_char (print_key k) = true) ->
+  (forall h v, forallb name_char (print_hash h v) = true) ->
+  forall s p, sem_from_str parse_key parse_hash s = Ok p ->
+  sem_from_str parse_key parse_hash (sem_to_text print_key print_hash p) = Ok p /\
+  (forall q, sem_from_str parse_key parse_hash (sem_to_text print_key print_hash p) = Ok q ->
+             sem_to_text print_key print_hash q = sem_to_text print_key print_hash p).
+Proof. exact sem_text_fixpoint_unconditional. Qed.
+Print Assumptions C10_pol_sem_text_fixpoint_unconditional.
+
+Theorem C10_pol_conc_text_fixpoint_unconditional :
+  forall (print_key : N -> tbytes) (parse_key : tbytes -> option N)
+         (print_hash : phk -> N -> tbytes) (parse_hash : phk -> tbytes -> option N),
+  (forall k, parse_key (print_key k) = Some k) ->
+  (forall h v, parse_hash h (print_hash h v) = Some v) ->
+  (forall k, forallb name_char (print_key k) = true) ->
+  (forall h v, forallb name_char (print_hash h v) = true) ->
+  forall s p, conc_from_str parse_key parse_hash s = Ok p ->
+  conc_from_str parse_key parse_hash (conc_to_text print_key print_hash p) = Ok p /\
+  (forall q, conc_from_str parse_key parse_hash (conc_to_text print_key print_hash p) = Ok q ->
+             conc_to_text print_key print_hash q = conc_to_text print_key print_hash p).
+Proof. exact conc_text_fixpoint_unconditional. Qed.
+Print Assumptions C10_pol_conc_text_fixpoint_unconditional.
+
+(* non-vacuity (instance of Proofs/PolTextCompose.v: decimal keys and hashes): "or(pk(1),3@and(pk(2),older(5)))" is accepted
+   by the concrete parser, printed with the odds in the names at the same depth 3, and parsed back; "thresh(2,pk(1),pk(2),pk(3))"
+   by the semantic parser *)
+Definition cl_ptext1 : tbytes :=
+  [111;114;40;112;107;40;49;41;44;51;64;97;110;100;40;112;107;40;50;41;44;111;108;100;101;114;40;53;41;41;41].
+Definition cl_ptext2 : tbytes :=
+  [116;104;114;101;115;104;40;50;44;112;107;40;49;41;44;112;107;40;50;41;44;112;107;40;51;41;41].
+Example C10_pol_closers_nonvacuous :
+  conc_from_str pinst_parse_key pinst_parse_hash cl_ptext1 = Ok (WOr [(1, WKey 1); (3, WAnd [WKey 2; WOlder 5])]) /\
+  depth (conc_to_tree pinst_print_key pinst_print_hash (WOr [(1, WKey 1); (3, WAnd [WKey 2; WOlder 5])])) = 3 /\
+  conc_from_str pinst_parse_key pinst_parse_hash
+    (conc_to_text pinst_print_key pinst_print_hash (WOr [(1, WKey 1); (3, WAnd [WKey 2; WOlder 5])]))
+    = Ok (WOr [(1, WKey 1); (3, WAnd [WKey 2; WOlder 5])]) /\
+  sem_from_str pinst_parse_key pinst_parse_hash cl_ptext2 = Ok (SThresh 2 [SKey 1; SKey 2; SKey 3]) /\
+  sem_to_text pinst_print_key pinst_print_hash (SThresh 2 [SKey 1; SKey 2; SKey 3]) = cl_ptext2.
+Proof. repeat split; vm_compute; reflexivity. Qed.
